@@ -47,8 +47,6 @@ def run(ctx):
                 cli_fuzz.make_state(r, stg, state)
             cmds = list(INSPECT)
             ctx.rng.shuffle(cmds)
-            if ctx.quick():
-                cmds = cmds[:30]
             for argv in cmds:
                 before = rigs.full_snapshot(r)
                 p = r.stg(stg, argv, timeout=30)
